@@ -285,6 +285,8 @@ End SimpleCleaning.
 
 (* ------------------------------------------------------------------ the tools on bytes *)
 Definition lines_of (input : list Z) : list line := records newline true input.
+(* simple_cleaning reads through FilterParallel: same flag as dedupe (regenerated from parallel.hh) *)
+Definition lines_of_parallel (input : list Z) : list line := tool_lines input.
 (* remove_invalid_utf8 passes its own strip_cr argument to ReadLineOrEOF (regenerated) *)
 Definition lines_of_utf8_tool (input : list Z) : list line := records newline utf8_strip_cr input.
 Definition bytes_of (ls : list line) : list Z := unrecords newline ls.
